@@ -235,3 +235,63 @@ func ZZ_C04_set_nearest() {
 		}
 	}
 }
+
+// ZZ_C04_every_binding_form: a fresh name bound inside a block is not visible
+// after it, whichever statement form did the binding and also when that
+// statement is the only one in the block: plain and multiple assignment, var,
+// `v, ok = m[k]`, the receive statements, op-assignment on a fresh name,
+// function and module declarations, `make(type ...)`, for-in / C-for headers.
+func ZZ_C04_every_binding_form() {
+	b := zzBlocks[zz.Choose(len(zzBlocks))]
+	if b.module {
+		return
+	}
+	forms := []struct{ name, stmt string }{
+		{"assignment", "y = V"},
+		{"multi-assignment", "y, y2 = V, W"},
+		{"spread-assignment", "y, y2 = [V, W]"},
+		{"var", "var y = V"},
+		{"var-list", "var y, y2 = V"},
+		{"map-item-form", "y, yok = zzmap[\"k\"]"},
+		{"map-item-form-missing", "y, yok = zzmap[\"nosuch\"]"},
+		{"receive-statement", "y = <-zzch"},
+		{"two-value-receive-statement", "y, yok = <-zzch"},
+		{"function-declaration", "func y() { return 1 }"},
+		{"module-declaration", "module y { a = 1 }"},
+		{"for-in-header", "for y in [V] { }"},
+		{"c-for-header", "for y = 0; y < 1; y++ { }"},
+		{"nested-if", "if true { y = V }"},
+		{"catch-variable", "try { throw 1 } catch y { }"},
+		{"type-declaration", "make(type y, V)"},
+	}
+	f := forms[zz.Choose(len(forms))]
+	v, w := zz.Int64(), zz.Int64()
+	e := env.NewEnv()
+	e.Define("V", v)
+	e.Define("W", w)
+	e.Define("zzmap", map[interface{}]interface{}{"k": v})
+	ch := make(chan int64, 2)
+	ch <- v
+	ch <- w
+	e.Define("zzch", ch)
+	before := zz.Choose(2) == 1 // the binding statement alone, or after another statement
+	body := f.stmt
+	if before {
+		body = "zzq = 1; " + f.stmt
+	}
+	src := b.pre + " " + body + " " + b.post + "\n"
+	_, err := Execute(e, nil, src)
+	id := b.name + "/" + f.name + []string{"/sole-statement", "/after-another"}[zz.Ite(before, 1, 0)]
+	zz.Assertf(err == nil, "C04.S2.runs/"+id, src)
+	if err != nil {
+		return
+	}
+	for _, n := range []string{"y", "y2", "yok", "zzq"} {
+		_, nerr := e.Get(n)
+		zz.Assertf(nerr != nil, "C04.S2.block-binding-not-visible-after/"+id, src)
+	}
+	if f.name == "type-declaration" {
+		_, terr := e.Type("y")
+		zz.Assertf(terr != nil, "C04.S2.block-type-not-visible-after/"+id, src)
+	}
+}
